@@ -361,6 +361,37 @@ fn scenario_c09(stats: &Arc<Mutex<Stats>>) {
             violate("C09", "impure:threads", format!("{} w={}: results under concurrent callers differ from the solo run", HASHES[*hi].0, w));
         }
     }
+    // the same calls once more in a newly spawned real OS thread (shuttle tasks are continuations on one OS
+    // thread, so whatever the library keeps per thread was shared by all of the above and starts from scratch here)
+    if let Some((_, hi, w, seed, c0, msg)) = jobs.first().cloned() {
+        let params = vec![(w, 2u32), (w, 2u32)];
+        let p2 = params.clone();
+        let (seed2, msg2) = (seed.clone(), msg.clone());
+        let fresh = std::thread::Builder::new()
+            .stack_size(64 << 20)
+            .spawn(move || {
+                let keys = with_hash!(hi, H => keygen_g::<H>(&p2, &seed2));
+                let mut out = vec![(keys.prv.clone(), keys.pubk.clone())];
+                let mut prv = model::prv_blob(&p2, c0, &seed2);
+                for _ in 0..3 {
+                    match with_hash!(hi, H => sign_g::<H>(&msg2, &prv)) {
+                        Some(r) => {
+                            prv = r.1.clone();
+                            out.push(r);
+                        }
+                        None => break,
+                    }
+                }
+                out
+            })
+            .ok()
+            .and_then(|h| h.join().ok());
+        if let Some(fresh) = fresh {
+            if fresh != results[0] {
+                violate("C09", "impure:os-thread", format!("{} w={}: the same calls in a newly spawned OS thread give different results", HASHES[hi].0, w));
+            }
+        }
+    }
     let mut st = stats.lock().unwrap();
     st.iterations += 1;
     st.c09_calls += (k * 4) as u64;
